@@ -109,16 +109,26 @@ def r1(idx, rep):
             if len(ps) != 1 or ps[0].result != ("return", b):
                 bad = bad or f"setting {MODE_KEYS[cls]} to {b} writes {meta} which reads back as {ps[0].result}"
         rep.check(bad is None, "R1", f"{fset.file}::{cls} setter/getter round trip", bad or "", K.where(fset, fset.node))
-    # ReturnMode.collect_when_not_matched == value is True
+    # ReturnMode.collect_when_not_matched: True exactly when the mode value is True
     fr = idx.method("ReturnMode", "collect_when_not_matched")
-    rep.check(unparse(fr.node.body[-1]) == "return self.value is True", "R1", f"{fr.file}::ReturnMode.collect_when_not_matched", unparse(fr.node.body[-1]), K.where(fr, fr.node))
+    bad = None
+    for v in (True, False, None):
+        _, ps = K.sym_result(idx, "ReturnMode", "collect_when_not_matched", store={"self.value": v, "self._return_mode": v})
+        if len(ps) != 1 or ps[0].result != ("return", v is True):
+            bad = bad or f"mode value {v!r}: {[p.result for p in ps]}, documented {v is True}"
+    rep.check(bad is None, "R1", f"{fr.file}::ReturnMode.collect_when_not_matched", bad or "", K.where(fr, fr.node))
+    # CsvPath reads each mode through that mode's own object (interpreted accessors: the value that comes back is the mode's)
     for prop, want in WIRING.items():
-        fi = idx.method("CsvPath", prop)
-        rets = [unparse(n.value) for n in ast.walk(fi.node) if isinstance(n, ast.Return)]
-        rep.check(rets == [want], "R1", f"{fi.file}::CsvPath.{prop} wiring", f"returns {rets}, expected {want}", K.where(fi, fi.node))
+        fi, ps = K.sym_result(idx, "CsvPath", prop)
+        got = ps[0].result[1] if len(ps) == 1 and ps[0].result[0] == "return" else None
+        rep.check(isinstance(got, Residual) and got.text == want, "R1", f"{fi.file}::CsvPath.{prop} wiring", f"returns {got!r}, expected {want}", K.where(fi, fi.node))
     fo = idx.method("CsvPath", "OR")
-    rets = [unparse(n.value) for n in ast.walk(fo.node) if isinstance(n, ast.Return)]
-    rep.check(rets == ["not self.modes.logic_mode.value"], "R1", f"{fo.file}::CsvPath.OR wiring", f"{rets}", K.where(fo, fo.node))
+    bad = None
+    for v in (True, False):
+        _, ps = K.sym_result(idx, "CsvPath", "OR", store={"self.modes.logic_mode.value": v})
+        if len(ps) != 1 or ps[0].result != ("return", not v):
+            bad = bad or f"logic-mode AND={v}: OR is {[p.result for p in ps]}"
+    rep.check(bad is None, "R1", f"{fo.file}::CsvPath.OR wiring", bad or "", K.where(fo, fo.node))
 
 
 def r2(idx, rep):
